@@ -139,12 +139,25 @@ class Scratch(object):
 
     def __init__(self):
         self.dir = None
+        self.cwd = None
 
     def __enter__(self):
         base = os.environ.get('WSIM_TMP') or tempfile.gettempdir()
         self.dir = tempfile.mkdtemp(prefix='wsim-%d-' % os.getpid(), dir=base)
+        # libepanet creates its temporary hydraulics file ("enXXXXXX") in the current directory and leaves it behind
+        # when a run fails before ENclose; the run therefore works inside its scratch directory
+        try:
+            self.cwd = os.getcwd()
+            os.chdir(self.dir)
+        except OSError:
+            self.cwd = None
         return self.dir
 
     def __exit__(self, *a):
+        if self.cwd is not None:
+            try:
+                os.chdir(self.cwd)
+            except OSError:
+                pass
         shutil.rmtree(self.dir, ignore_errors=True)
         return False
